@@ -287,6 +287,47 @@ fn check(case: &Case, ev: &mut CaseEv) -> CheckResult {
                 ensure!(err <= tol, "mean_inplace k={} element {}: got {:e}, exact mean {:e} (err {:e} > tol {:e})", k, i, got[i], exact, err, tol);
             }
             ev.ratio("mean_bound", worst);
+            // up to four operands: the result must be the correctly rounded quotient of *some* single-precision sum of
+            // the operands (every order and every bracketing is accepted; the order of the additions is not pinned,
+            // the division is)
+            if k <= 3 {
+                fn sums(v: &[f32]) -> Vec<f32> {
+                    // all values obtainable by adding the operands in any order with any bracketing
+                    if v.len() == 1 {
+                        return vec![v[0]];
+                    }
+                    let m = v.len();
+                    let mut out = Vec::new();
+                    // split into two non-empty subsets (left contains element 0 to halve the work)
+                    for mask in 0u32..(1 << (m - 1)) {
+                        let mut l = vec![v[0]];
+                        let mut r = Vec::new();
+                        for j in 1..m {
+                            if mask >> (j - 1) & 1 == 1 { l.push(v[j]) } else { r.push(v[j]) }
+                        }
+                        if r.is_empty() {
+                            continue;
+                        }
+                        for a in sums(&l) {
+                            for b in sums(&r) {
+                                out.push(a + b);
+                            }
+                        }
+                    }
+                    out.sort_by(|a, b| a.total_cmp(b));
+                    out.dedup_by(|a, b| a.to_bits() == b.to_bits());
+                    out
+                }
+                let div = k as f32 + 1.0;
+                for i in 0..n.min(16) {
+                    let mut ops = vec![a[i]];
+                    ops.extend(others_data.iter().map(|d| d[i]));
+                    let cands = sums(&ops);
+                    let ok = cands.iter().any(|s| (s / div).to_bits() == got[i].to_bits() || (s / div == 0.0 && got[i] == 0.0));
+                    ensure!(ok, "mean_inplace k={} element {}: got {:e} (bits {:08x}); no single-precision sum of the operands {:?}, in any order or bracketing, divided by {} rounds to it (nearest candidate {:e})", k, i, got[i], got[i].to_bits(), ops, div, cands.iter().map(|s| s / div).fold(f32::NAN, |b, c| if b.is_nan() || (c - got[i]).abs() < (b - got[i]).abs() { c } else { b }));
+                }
+                ev.class("mean: quotient pinned (<= 4 operands)");
+            }
             Ok(())
         }
         Op::Outer => {
@@ -432,7 +473,7 @@ impl Prop for C15 {
         t.pick(2_000_000, 200_000_000)
     }
     fn rule(&self) -> String {
-        "tape-decoded (operation in {add, sub, mul, scaled Hadamard, hadamard3d, scalar division, mean over k=1..5, outer product, matrix-vector product, transpose, clamp, shape-mismatch refusal} x rank 1..4 (nested / optional-nested lists for add and scalar division) x extents 1..4 per axis (1/6 of the cases: a wide axis of 20..300; 1/12: a matrix with both extents in 17..70) x content classes (dyadic, O(1), mixed magnitudes 2^-20..2^20, signed zeros + subnormals, 1e18) x scalars). Oracle: scalar IEEE reference per element (bitwise for add/sub/mul/div/outer/transpose/clamp, 2 ulp of the exact product for Hadamard, summation bound for mean and dot), shape field unchanged and consistent with the data, mismatched operands (other extent / other rank / permuted extents / nested list with one differing member) must panic. Non-trivial: rank >= 2 with >= 2 axes > 1. Distinct = (operation, rank, extents, nesting, mismatch kind, k).".into()
+        "tape-decoded (operation in {add, sub, mul, scaled Hadamard, hadamard3d, scalar division, mean over k=1..5, outer product, matrix-vector product, transpose, clamp, shape-mismatch refusal} x rank 1..4 (nested / optional-nested lists for add and scalar division) x extents 1..4 per axis (1/6 of the cases: a wide axis of 20..300; 1/12: a matrix with both extents in 17..70) x content classes (dyadic, O(1), mixed magnitudes 2^-20..2^20, signed zeros + subnormals, 1e18) x scalars). Oracle: scalar IEEE reference per element (bitwise for add/sub/mul/div/outer/transpose/clamp, 2 ulp of the exact product for Hadamard, summation bound for mean and dot; for means of up to four operands additionally: the result is the correctly rounded quotient of some single-precision sum of the operands, any order and bracketing), shape field unchanged and consistent with the data, mismatched operands (other extent / other rank / permuted extents / nested list with one differing member) must panic. Non-trivial: rank >= 2 with >= 2 axes > 1. Distinct = (operation, rank, extents, nesting, mismatch kind, k).".into()
     }
     fn run_case(&self, tape: &[u32], ev: &mut CaseEv) -> CheckResult {
         check(&decode(tape), ev)
